@@ -3,6 +3,7 @@ import OmbottModel.Lemmas.Body
 import OmbottModel.Lemmas.BodyAccess
 import OmbottModel.Lemmas.PyInt
 import OmbottModel.Gen.Body
+import OmbottModel.Props.EnvCache
 /-!
 C04 — Content-Length bodies arrive byte-exact under any read fragmentation.
 Property theorems only; helper lemmas live in `Lemmas/Body.lean`.
@@ -274,3 +275,44 @@ example : ({ cfg := ⟨none, 4, []⟩, clHeader := none, teHeader := none, input
 end NonVacuity
 
 end Ombott.Body
+
+/-! ### the cache layer of the request object (model `Model/EnvCache.lean`, reference
+`Model/EnvCacheSpec.lean`; general theorem and table obligations in `Props/EnvCache.lean`) -/
+namespace Ombott.EnvCache
+
+/-- **the cache is never observable** (general statement, all operation sequences in scope; see
+`Props/EnvCache.lean` for the scope `Safe` and the pinned residue) -/
+theorem c04_cache_unobservable (cfg : Cfg) (L : Lib) (w : World) (ops : List Op)
+    (hW : InvW cfg L w) (hs : Safe cfg L w ops) : run cfg L w ops = specRun cfg L w ops :=
+  cache_unobservable cfg L w ops hW hs
+
+/-- **`content_length` follows the header**: under any assignments / deletions through the request
+object (`CONTENT_LENGTH` among them), on the request and on copies, every read of `content_length`
+is `int(CONTENT_LENGTH or -1)` of the header as it is then (defect d7edd9e, for all sequences) -/
+theorem c04_content_length_follows_header (cfg : Cfg) (L : Lib) (w : World) (ops : List Op) (hW : FreshW w)
+    (hw : ∀ op ∈ ops, opWithin [.contentLength] (fun _ => true) op = true) :
+    run cfg L w ops = specRun cfg L w ops :=
+  content_length_follows_header cfg L w ops hW hw
+
+/-- **the body follows the input stream**: reads of `body` / `content_length` under any assignments
+(a new `wsgi.input` included) and copies answer what the reference answers — the buffered body
+while there is one, else what the current stream delivers (`replaced_stream_exact`) -/
+theorem c04_body_follows_input (cfg : Cfg) (L : Lib) (w : World) (ops : List Op) (hW : FreshW w)
+    (hw : ∀ op ∈ ops, opWithin [.body, .contentLength] (fun _ => true) op = true) :
+    run cfg L w ops = specRun cfg L w ops :=
+  body_follows_input cfg L w ops hW hw
+
+/-- the dependency cover and the pinned residue, as C04 relies on them -/
+theorem c04_dependency_cover :
+    (∀ row ∈ Gen.ecProps, ∀ K ∈ row.reads, row.key.toList ∈ todelete K.toList ∨ (row.name, K) ∈ Gen.ecUncovered) ∧
+    Gen.ecUncovered.filter (fun p => !ecByDesign.contains p) = pinnedStale :=
+  ⟨dependency_cover, uncovered_pinned.1⟩
+
+section NonVacuity
+/-- the hypotheses of the theorems above are met by the request and library of `Props/EnvCache.lean` and this
+sequence (further instances, out-of-scope sequences and the witnesses of the pinned residue are there) -/
+example : FreshW exWorld ∧ InvW {} exLib exWorld := ⟨FreshW.ofB (by decide), (FreshW.ofB (by decide)).inv {} exLib⟩
+example : ∀ op ∈ [Op.read 0 .contentLength, .setStr 0 kCL cs!"3", .read 0 .contentLength, .copy 0, .del 1 kCL, .read 1 .contentLength], opWithin [.contentLength] (fun _ => true) op = true := by decide
+end NonVacuity
+
+end Ombott.EnvCache
